@@ -14,7 +14,13 @@
 (*   "eoa"  plain account, "new" contract creation, "fwd" forwards the call *)
 (*   value to R with an inner CALL, "sdo" SELFDESTRUCT to beneficiary B,    *)
 (*   "sds" SELFDESTRUCT with itself as beneficiary, "sto" stores and keeps  *)
-(*   the value, "rev" REVERT, "loop" runs out of gas.                       *)
+(*   the value, "rev" REVERT, "loop" runs out of gas; caller contracts that *)
+(*   make two inner CALLs in ONE transaction: "dd2" calls the "sdo" victim  *)
+(*   twice with InnerAmt (destruct, re-fund, destruct again), "dd0" twice   *)
+(*   with value 0, "dds" the "sds" victim twice with InnerAmt, "drd" first  *)
+(*   the wrapper "rw" (which calls the victim and then REVERTs its frame)   *)
+(*   and then the victim directly.  A contract keeps its code until the end *)
+(*   of the transaction, so every inner call into it runs SELFDESTRUCT.     *)
 (* Named deviation switch SelfBeneficiaryBurns: TRUE = as coded (opSuicide  *)
 (* credits the beneficiary and then StateDB.Suicide zeroes the contract, so *)
 (* with beneficiary = self the balance disappears); the variable `burnt`    *)
@@ -27,6 +33,8 @@ CONSTANTS Senders,       \* externally owned sender accounts
           NEWC,           \* stands for all contracts created by the transactions (their balances summed)
           KindOf,        \* [contract account -> kind]   ("fwd","sdo","sds","sto","rev","loop")
           GasLimits, GasPrices, Values, NonceDeltas,   \* what a transaction may carry (model checking)
+          SDOV, SDSV,    \* the self-destructing victims the caller contracts call ("sdo" / "sds" kind)
+          InnerAmt,      \* value of an inner CALL of the caller contracts
           Intrinsic,     \* intrinsic gas (one figure is enough for the model: below it nothing runs)
           InitBal, InitNonce,
           SelfBeneficiaryBurns,
@@ -66,19 +74,37 @@ Reject(s, to, nd, gl, gp, v) ==
 \* buyGas: gasLimit*gasPrice, or as much gas as the balance buys (non-mainnet chain ids: whole gas units only)
 Bought(s, gl, gp) == IF gp > 0 /\ bal[s] < gl * gp THEN bal[s] \div gp ELSE gl
 
+\* one inner CALL (value c) from contract k into the self-destructing victim vic, on st = [b, alive, burnt];
+\* the victim runs its code iff it had code when the transaction started (code is removed at the end of the tx)
+Inner(st, k, vic, c) ==
+    IF st.b[k] < c THEN st                              \* CALL fails for lack of balance, the frame goes on
+    ELSE LET b1 == Move(st.b, k, vic, c) IN
+         IF vic \notin alive THEN [st EXCEPT !.b = b1]  \* no code any more: a plain value transfer
+         ELSE IF KindOf[vic] = "sdo"
+              THEN [b |-> Move(b1, vic, B, b1[vic]), alive |-> st.alive \ {vic}, burnt |-> st.burnt]
+              ELSE IF SelfBeneficiaryBurns
+                   THEN [b |-> [b1 EXCEPT ![vic] = 0], alive |-> st.alive \ {vic}, burnt |-> st.burnt + b1[vic]]
+                   ELSE [b |-> b1, alive |-> st.alive \ {vic}, burnt |-> st.burnt]
+
 \* what the code at `to` does with the value v it received, on balances b (value already credited to `to`);
-\* returns the set of possible [b, alive, burnt] outcomes of a SUCCESSFUL call
+\* returns the set of possible [b, alive, burnt] outcomes of a SUCCESSFUL call (an inner CALL may also fail for gas)
 CallEffects(b, to, v) ==
-    LET k == IF to \in Contracts /\ to \in alive THEN KindOf[to] ELSE "plain" IN
+    LET k == IF to \in Contracts /\ to \in alive THEN KindOf[to] ELSE "plain"
+        st0 == [b |-> b, alive |-> alive, burnt |-> burnt]
+    IN
     IF k = "fwd" THEN {[b |-> Move(b, to, R, v), alive |-> alive, burnt |-> burnt],     \* inner CALL succeeded
-                       [b |-> b, alive |-> alive, burnt |-> burnt]}                     \* inner CALL failed (gas), value stays
+                       st0}                                                             \* inner CALL failed (gas), value stays
     ELSE IF k = "sdo" THEN {[b |-> Move(b, to, B, b[to]), alive |-> alive \ {to}, burnt |-> burnt]}
     ELSE IF k = "sds" THEN IF SelfBeneficiaryBurns
                            THEN {[b |-> [b EXCEPT ![to] = 0], alive |-> alive \ {to}, burnt |-> burnt + b[to]]}
                            ELSE {[b |-> b, alive |-> alive \ {to}, burnt |-> burnt]}
-    ELSE {[b |-> b, alive |-> alive, burnt |-> burnt]}       \* plain account, created contract, "sto"
+    ELSE IF k = "dd2" THEN {st0, Inner(st0, to, SDOV, InnerAmt), Inner(Inner(st0, to, SDOV, InnerAmt), to, SDOV, InnerAmt)}
+    ELSE IF k = "dd0" THEN {st0, Inner(st0, to, SDOV, 0), Inner(Inner(st0, to, SDOV, 0), to, SDOV, 0)}
+    ELSE IF k = "dds" THEN {st0, Inner(st0, to, SDSV, InnerAmt), Inner(Inner(st0, to, SDSV, InnerAmt), to, SDSV, InnerAmt)}
+    ELSE IF k = "drd" THEN {st0, Inner(st0, to, SDOV, InnerAmt)}     \* the wrapper's frame is always reverted
+    ELSE {st0}       \* plain account, created contract, "sto"
 
-MustFail(to) == to \in Contracts /\ to \in alive /\ KindOf[to] \in {"rev", "loop"}
+MustFail(to) == to \in Contracts /\ to \in alive /\ KindOf[to] \in {"rev", "loop", "rw"}
 
 \* TransitionDb for a transaction with the right nonce
 Apply(s, to, gl, gp, v, used, ok, intr) ==
